@@ -105,6 +105,105 @@ func smallLimit(r *Rand) int {
 	return r.PickInt(64, 256, 1000, 4096, 5000, 65536)
 }
 
+// genC05Close (engine E2): Server.Close is pinned inside a running simple
+// query of 1-3 statements: Close begins once the first statement callback
+// runs, and the handler does not get past its first yield before Close has
+// signalled the shutdown. The query was admitted, so it is answered in full.
+func genC05Close(r *Rand) *Case {
+	c := &Case{Variant: "close-during-query", Server: ServerCfg{Limit: 4096}, Programs: map[string]*Program{}}
+	n := r.Range(1, 3)
+	var stmts []*StmtProg
+	for i := 0; i < n; i++ {
+		sp := &StmtProg{Cols: []ColSpec{{Name: "a", OID: pgwire.OIDText}}}
+		sp.Ops = append(sp.Ops, Op{K: "yield"})
+		for k := r.Intn(3); k > 0; k-- {
+			sp.Ops = append(sp.Ops, Op{K: "row", Row: []Val{{G: "string", S: fmt.Sprintf("s%d", i)}}})
+		}
+		if r.Bool() {
+			sp.Ops = append(sp.Ops, Op{K: "yield"})
+		}
+		sp.Ops = append(sp.Ops, Op{K: "complete", Tag: fmt.Sprintf("TAG %d", i)})
+		stmts = append(stmts, sp)
+	}
+	c.Programs["multi"] = &Program{Stmts: stmts}
+	c.Expect = map[string]any{"statements": n}
+	c.Conns = []ConnCase{{Steps: []Step{{Msgs: []pgwire.FMsg{startupMsg("u", "d")}}, {Msgs: []pgwire.FMsg{{K: "Q", S1: "multi"}}}}, NoEOF: true}}
+	c.Sched = &SchedCase{Strategy: r.Pick("uniform", "pct"), Depth: 1, MaxSteps: 400000, Closers: []Closer{{Calls: r.Range(1, 2)}},
+		Holds: []Hold{{Task: 2, Point: "closer.start", Until: 1, UntilPoint: "cb.stmt"}, {Task: 1, Point: "op.yield", Until: 2, UntilPoint: "close.signalled"}}}
+	return c
+}
+
+func checkC05Close(x *Exec, c *Case) ([]Violation, bool) {
+	r := x.Run(c)
+	if c.Sched != nil {
+		c.Sched.Schedule = r.Schedule
+	}
+	cs := r.Conns[0]
+	t := ParseOut(cs)
+	viol := GrammarViolation("C05", 0, t)
+	p := c.Programs["multi"]
+	if p == nil || r.HoldsForced > 0 || r.Outcome != RunIdle || len(cs.cc.Faults) > 0 {
+		x.Probe("close_during_query_inconclusive")
+		return viol, false
+	}
+	n := len(p.Stmts)
+	for _, sp := range p.Stmts {
+		done := 0
+		for _, op := range sp.Ops {
+			switch op.K {
+			case "complete":
+				done++
+			case "row", "yield":
+			default:
+				return viol, false
+			}
+		}
+		if done != 1 {
+			return viol, false
+		}
+	}
+	i := 0
+	for i < len(t.Msgs) && t.Msgs[i].Type != 'Z' {
+		i++
+	}
+	if i == len(t.Msgs) || len(cs.EventsOf("stmt")) == 0 {
+		return viol, false
+	}
+	x.Probe("close_during_query")
+	add := func(rule, detail string) {
+		viol = append(viol, Violation{Prop: "C05", Rule: rule, Sig: rule, Detail: "conn 0: Server.Close ran while the query was being served: " + detail + fmt.Sprintf(" (server output %q)", pgwire.Kinds(t.Msgs))})
+	}
+	var tags []string
+	errs, ready := 0, 0
+	for _, m := range t.Msgs[i+1:] {
+		switch m.Type {
+		case 'Z':
+			ready++
+		case 'C':
+			if ready > 0 || errs > 0 {
+				add("result-after-end", "a CommandComplete follows the end of its query cycle")
+			}
+			tags = append(tags, m.Tag)
+		case 'E':
+			if ready == 0 {
+				errs++
+			}
+		}
+	}
+	for k, tg := range tags {
+		if tg != fmt.Sprintf("TAG %d", k) {
+			add("results-out-of-order", fmt.Sprintf("CommandComplete #%d carries tag %q", k, tg))
+		}
+	}
+	if errs == 0 && len(tags) < n {
+		add("statements-skipped-silently", fmt.Sprintf("only %d of %d statements were answered and no ErrorResponse says why", len(tags), n))
+	}
+	if ready != 1 {
+		add("no-ready-for-query", fmt.Sprintf("the admitted query was answered with %d ReadyForQuery", ready))
+	}
+	return viol, true
+}
+
 // genC05Cancel: one simple query of 2-5 plain statements; one of them cancels
 // the session context (before or after its own completion).
 func genC05Cancel(r *Rand) *Case {
@@ -115,7 +214,9 @@ func genC05Cancel(r *Rand) *Case {
 	for i := 0; i < n; i++ {
 		sp := &StmtProg{Cols: []ColSpec{{Name: "a", OID: pgwire.OIDText}}}
 		if i == at && r.Bool() {
-			sp.Ops = append(sp.Ops, Op{K: "cancel"})
+			// (half of the handlers let simulated time pass right after the
+			// cancellation and only then go on writing their result)
+			sp.Ops = append(sp.Ops, Op{K: "cancel", Ms: r.PickInt(0, 0, 1, 50, 6000)})
 		}
 		for k := r.Intn(3); k > 0; k-- {
 			sp.Ops = append(sp.Ops, Op{K: "row", Row: []Val{{G: "string", S: fmt.Sprintf("s%d", i)}}})
@@ -225,7 +326,210 @@ func checkC05Cancel(x *Exec, c *Case) ([]Violation, bool) {
 	if errs == 1 && ran > len(tags)+1 {
 		add("statement-ran-after-error", fmt.Sprintf("%d statements ran although the cycle reported an error after %d results", ran, len(tags)))
 	}
+	// whatever follows the first cycle belongs to the optional second query
+	// ("after": one CommandComplete AFTER, or one ErrorResponse) - nothing of the
+	// first query may arrive once its ReadyForQuery is out
+	rest := t.Msgs[i+1:]
+	for k, m := range rest {
+		if m.Type == 'Z' {
+			rest = rest[k+1:]
+			break
+		}
+	}
+	sawReady := false
+	for _, m := range rest {
+		switch m.Type {
+		case 'Z':
+			sawReady = true
+		case 'C':
+			if m.Tag != "AFTER" {
+				add("result-after-ready", fmt.Sprintf("CommandComplete %q arrived after the ReadyForQuery that ended its query", m.Tag))
+			}
+		case 'D':
+			add("result-after-ready", "a DataRow arrived after the ReadyForQuery that ended its query")
+		}
+	}
+	if len(rest) > 0 && !sawReady && cs.Closed == 0 {
+		add("result-after-ready", "output follows the last ReadyForQuery")
+	} else if len(rest) > 0 && rest[len(rest)-1].Type != 'Z' && cs.Closed == 0 {
+		add("result-after-ready", "output follows the last ReadyForQuery")
+	}
 	return viol, ran > 0
+}
+
+// genC18Close (engine E2): Server.Close runs while the connection is open (it
+// begins once the first statement callback runs); the client keeps sending
+// messages of sizes around the allocation granule, which the server no longer
+// serves. What the callbacks retained before stays intact.
+func genC18Close(r *Rand) *Case {
+	c := &Case{Variant: "server-closed-then-drained", Server: ServerCfg{Limit: r.PickInt(4096, 8192, 65536)}}
+	c.Server.Auth = r.Pick("cleartext", "passthrough", "passthrough")
+	genHistory(r, c, histOpts{simple: true, extended: true, params: true, retain: true, maxUnits: r.Range(1, 3)})
+	cc := &c.Conns[0]
+	cc.Cuts = nil
+	for n := r.Range(2, 6); n > 0; n-- {
+		size := r.PickInt(1, 40, 3000, 4090, 4096, c.Server.Limit-10)
+		m := pgwire.FMsg{K: "Q", S1: "drained " + strings.Repeat(r.Pick("#", "\x00x", "z"), size)}
+		if r.Chance(1, 3) {
+			m = pgwire.FMsg{K: "d", Data: []byte(strings.Repeat("#", size))}
+		}
+		cc.Steps = append(cc.Steps, Step{Msgs: []pgwire.FMsg{m}})
+	}
+	c.Sched = &SchedCase{Strategy: r.Pick("uniform", "pct"), Depth: 1, MaxSteps: 400000, Closers: []Closer{{Calls: 1}},
+		Holds: []Hold{{Task: 2, Point: "closer.start", Until: 1, UntilPoint: "cb.stmt"}}}
+	return c
+}
+
+func checkC18Close(x *Exec, c *Case) ([]Violation, bool) {
+	r := x.Run(c)
+	if c.Sched != nil {
+		c.Sched.Schedule = r.Schedule
+	}
+	var viol []Violation
+	nt := false
+	for i, cs := range r.Conns {
+		t := ParseOut(cs)
+		viol = append(viol, GrammarViolation("C18", i, t)...)
+		cs.checkRetained("end of connection")
+		if len(cs.Corrupt) > 0 {
+			viol = append(viol, Violation{Prop: "C18", Rule: "retained-data-overwritten", Detail: "Server.Close ran while the connection was open, the client kept sending: " + cs.Corrupt[0], Sig: "retained " + firstWords(cs.Corrupt[0], 1)})
+		}
+		if len(cs.retainedVals) > 0 && len(r.CloserEvents) > 0 {
+			nt = true
+			x.Probe("retained_across_server_close")
+		}
+	}
+	return viol, nt
+}
+
+// genC06Panic: a statement function panics inside an extended-protocol
+// Execute; the library turns that into a failed Execute (one ErrorResponse,
+// discard until Sync) - the messages pipelined behind it must not run.
+func genC06Panic(r *Rand) *Case {
+	c := &Case{Variant: "panic-in-execute", Server: ServerCfg{Limit: 4096, UserCaches: r.Chance(1, 4)}, Programs: map[string]*Program{}}
+	col := []ColSpec{{Name: "a", OID: pgwire.OIDText}}
+	sp := &StmtProg{Cols: col}
+	for k := r.Intn(3); k > 0; k-- {
+		sp.Ops = append(sp.Ops, Op{K: "row", Row: []Val{{G: "string", S: "r"}}})
+	}
+	sp.Ops = append(sp.Ops, Op{K: "panic"})
+	c.Programs["x"] = &Program{Stmts: []*StmtProg{sp}}
+	c.Programs["y"] = &Program{Stmts: []*StmtProg{{Cols: col, Ops: []Op{{K: "row", Row: []Val{{G: "string", S: "y"}}}, {K: "complete", Tag: "Y"}}}}}
+	good := []pgwire.FMsg{{K: "P", S1: "sy", S2: "y"}, {K: "B", S1: "py", S2: "sy"}, {K: "E", S1: "py"}}
+	bad := []pgwire.FMsg{{K: "P", S1: "sx", S2: "x"}, {K: "B", S1: "px", S2: "sx"}, {K: "E", S1: "px"}}
+	var msgs []pgwire.FMsg
+	if r.Bool() {
+		msgs = append(msgs, good...)
+	}
+	msgs = append(msgs, bad...)
+	if r.Bool() {
+		msgs = append(msgs, good...)
+	}
+	if r.Bool() {
+		msgs = append(msgs, pgwire.FMsg{K: "D", Sub: 'P', S1: "px"}, pgwire.FMsg{K: "E", S1: "px"})
+	}
+	msgs = append(msgs, pgwire.FMsg{K: "S"})
+	msgs = append(msgs, good...)
+	msgs = append(msgs, pgwire.FMsg{K: "S"})
+	steps := []Step{{Msgs: []pgwire.FMsg{startupMsg("u", "d")}}}
+	if r.Bool() {
+		steps = append(steps, Step{Msgs: msgs})
+	} else {
+		for i := range msgs {
+			steps = append(steps, Step{Msgs: msgs[i : i+1]})
+		}
+	}
+	c.Conns = []ConnCase{{Steps: steps, Cuts: genCuts(r)}}
+	return c
+}
+
+// genC06Cancel: Parse/Bind/Execute/Sync of a statement that cancels the session
+// context in the middle of its result (and may let simulated time pass before it
+// goes on), followed by an optional simple query.
+func genC06Cancel(r *Rand) *Case {
+	c := &Case{Variant: "session-cancelled-mid-execute", Server: ServerCfg{Limit: 4096, MW: []MWSpec{{Cancel: true}}}, Programs: map[string]*Program{}}
+	col := []ColSpec{{Name: "a", OID: pgwire.OIDText}}
+	sp := &StmtProg{Cols: col}
+	for k := r.Intn(3); k > 0; k-- {
+		sp.Ops = append(sp.Ops, Op{K: "row", Row: []Val{{G: "string", S: "before"}}})
+	}
+	sp.Ops = append(sp.Ops, Op{K: "cancel", Ms: r.PickInt(0, 1, 50, 6000)})
+	for k := r.Intn(3); k > 0; k-- {
+		sp.Ops = append(sp.Ops, Op{K: "row", Row: []Val{{G: "string", S: "late"}}})
+	}
+	sp.Ops = append(sp.Ops, Op{K: "complete", Tag: "EXEC"})
+	c.Programs["x"] = &Program{Stmts: []*StmtProg{sp}}
+	c.Programs["after"] = &Program{Stmts: []*StmtProg{{Cols: col, Ops: []Op{{K: "complete", Tag: "AFTER"}}}}}
+	msgs := []pgwire.FMsg{{K: "P", S1: "s", S2: "x"}, {K: "B", S1: "p", S2: "s"}, {K: "E", S1: "p"}, {K: "S"}}
+	steps := []Step{{Msgs: []pgwire.FMsg{startupMsg("u", "d")}}, {Msgs: msgs}}
+	if r.Bool() {
+		steps = append(steps, Step{Msgs: []pgwire.FMsg{{K: "Q", S1: "after"}}})
+	}
+	c.Conns = []ConnCase{{Steps: steps, Cuts: genCuts(r)}}
+	return c
+}
+
+// checkC06Cancel: whatever an implementation does once the session context is
+// cancelled, the Execute is answered by its DataRows and then one
+// CommandComplete or one ErrorResponse, the Sync by one ReadyForQuery, and
+// nothing of that Execute arrives once the ReadyForQuery is out.
+func checkC06Cancel(x *Exec, c *Case) ([]Violation, bool) {
+	r := x.Run(c)
+	cs := r.Conns[0]
+	t := ParseOut(cs)
+	viol := GrammarViolation("C06", 0, t)
+	add := func(rule, detail string) {
+		viol = append(viol, Violation{Prop: "C06", Rule: rule, Sig: rule, Detail: "conn 0: " + detail + fmt.Sprintf(" (server output %q)", pgwire.Kinds(t.Msgs))})
+	}
+	i := 0
+	for i < len(t.Msgs) && t.Msgs[i].Type != 'Z' {
+		i++
+	}
+	if i == len(t.Msgs) || len(cs.EventsOf("stmt")) == 0 {
+		return viol, false
+	}
+	// (a shrunk case may leave the domain of this oracle: startup, then Parse,
+	// Bind, Execute, Sync and at most one simple query)
+	kinds := ""
+	for _, m := range c.Conns[0].FlatMsgs() {
+		kinds += m.K + " "
+	}
+	if kinds != "startup P B E S " && kinds != "startup P B E S Q " {
+		return viol, false
+	}
+	ended, ready := 0, 0
+	for _, m := range t.Msgs[i+1:] {
+		switch m.Type {
+		case 'Z':
+			ready++
+		case 'D':
+			if ended > 0 || ready > 0 {
+				add("result-after-end", "a DataRow follows the CommandComplete / ErrorResponse / ReadyForQuery that ended its Execute")
+			}
+		case 'C':
+			if m.Tag == "AFTER" && ready == 1 {
+				continue
+			}
+			if ended > 0 || ready > 0 {
+				add("result-after-end", fmt.Sprintf("CommandComplete %q follows the message that ended its Execute", m.Tag))
+			}
+			ended++
+		case 'E':
+			if ready == 0 {
+				if ended > 0 {
+					add("result-after-end", "an ErrorResponse follows the CommandComplete of the same Execute")
+				}
+				ended++
+			}
+		}
+	}
+	if ready == 0 && cs.Closed == 0 {
+		add("no-ready-for-query", "the Sync was not answered")
+	}
+	if n := len(t.Msgs); n > 0 && t.Msgs[n-1].Type != 'Z' && cs.Closed == 0 {
+		add("result-after-end", "output follows the last ReadyForQuery")
+	}
+	return viol, true
 }
 
 // addManyParams inserts, right behind the startup step, a statement with as
@@ -270,11 +574,14 @@ func init() {
 	// ------------------------------------------------------------------ C05
 	register(&Prop{
 		ID: "C05", Level: "exploration", QuickS: 25, ThoroughS: 420,
-		Rule:       "seeded simple-query histories (1-6 Query messages, pipelined / one per quiescence point / grouped, random segmentation) whose query texts map to generated handler programs (parser error, 0/1/many statements, 0-4 typed columns, good / wrong-arity / unencodable rows, Written() reads, Complete, calls after completion, error return at any position); a share of cases cancels the session context (derived by a session middleware, as a session time limit would) while one statement of a multi-statement query runs: the cycle must still be all results in order or results of a prefix plus exactly one ErrorResponse, never a silently shortened result; non-trivial = at least one result-writer operation was executed and judged; distinct = distinct case content hashes",
+		Rule:       "seeded simple-query histories (1-6 Query messages, pipelined / one per quiescence point / grouped, random segmentation) whose query texts map to generated handler programs (parser error, 0/1/many statements, 0-4 typed columns, good / wrong-arity / unencodable rows, Written() reads, Complete, calls after completion, error return at any position); a share of cases cancels the session context (derived by a session middleware, as a session time limit would) while one statement of a multi-statement query runs: the cycle must still be all results in order or results of a prefix plus exactly one ErrorResponse, never a silently shortened result; variants: a statement cancels the middleware-derived session context (optionally letting simulated time pass before it goes on writing) - nothing of a query may arrive after its ReadyForQuery; E2: Server.Close pinned inside a running query of 1-3 statements - the admitted query is answered in full with one ReadyForQuery; non-trivial = at least one result-writer operation was executed and judged; distinct = distinct case content hashes",
 		Components: e1Components, Assumptions: commonAssumptions,
 		Gen: func(r *Rand, tier string) *Case {
 			if r.Chance(1, 25) {
 				return genC05Cancel(r)
+			}
+			if r.Chance(1, 40) {
+				return genC05Close(r)
 			}
 			c := &Case{Server: ServerCfg{Limit: smallLimit(r)}}
 			genHistory(r, c, histOpts{decorated: r.Chance(1, 4), manyRows: true, simple: true, errs: true, abuse: true, multi: true, typedNull: false, rich: true, maxUnits: units(tier, 6), terminate: true})
@@ -283,6 +590,9 @@ func init() {
 		Check: func(x *Exec, c *Case) ([]Violation, bool) {
 			if c.Variant == "session-cancelled-mid-query" {
 				return checkC05Cancel(x, c)
+			}
+			if c.Variant == "close-during-query" {
+				return checkC05Close(x, c)
 			}
 			viol, r, mrs := modelCheck("C05", x, c)
 			nt := false
@@ -297,14 +607,23 @@ func init() {
 	// ------------------------------------------------------------------ C06
 	register(&Prop{
 		ID: "C06", Level: "exploration", QuickS: 25, ThoroughS: 420,
-		Rule:       "seeded histories of Parse/Bind/Describe/Execute/Close/Flush/Sync over <=3 statement and <=3 portal names (incl. the empty name and names never defined) interleaved with simple queries, oversized and unknown messages, parsers and statement functions scripted to fail; delivered pipelined, one message per quiescence point, or grouped; judged message by message against the reference model with discard-until-Sync, including that each designated reply is on the wire when the server next waits for input; units that repeat an earlier Parse verbatim and that bind one statement several times with result-format lists differing in spelling or one position; long results (a row repeated 17-3000 times, up to 300 columns); non-trivial = an ErrorResponse occurred and at least one later message of the same batch was judged; distinct = distinct case content hashes",
+		Rule:       "seeded histories of Parse/Bind/Describe/Execute/Close/Flush/Sync over <=3 statement and <=3 portal names (incl. the empty name and names never defined) interleaved with simple queries, oversized and unknown messages, parsers and statement functions scripted to fail; delivered pipelined, one message per quiescence point, or grouped; judged message by message against the reference model with discard-until-Sync, including that each designated reply is on the wire when the server next waits for input; units that repeat an earlier Parse verbatim and that bind one statement several times with result-format lists differing in spelling or one position; long results (a row repeated 17-3000 times, up to 300 columns); variants: the session context is cancelled in the middle of an Execute (nothing of it may arrive after the message that ended it), a statement function panics inside Execute (a failed Execute: one ErrorResponse, discard until Sync); non-trivial = an ErrorResponse occurred and at least one later message of the same batch was judged; distinct = distinct case content hashes",
 		Components: e1Components, Assumptions: commonAssumptions,
 		Gen: func(r *Rand, tier string) *Case {
+			if r.Chance(1, 40) {
+				return genC06Cancel(r)
+			}
+			if r.Chance(1, 40) {
+				return genC06Panic(r)
+			}
 			c := &Case{Server: ServerCfg{Limit: smallLimit(r)}}
 			genHistory(r, c, histOpts{copy: r.Chance(1, 5), decorated: r.Chance(1, 4), manyRows: true, simple: true, extended: true, errs: true, abuse: r.Chance(1, 3), unknown: true, oversized: true, unknownNames: true, closes: true, stray: true, params: true, maxUnits: units(tier, 8), terminate: true})
 			return c
 		},
 		Check: func(x *Exec, c *Case) ([]Violation, bool) {
+			if c.Variant == "session-cancelled-mid-execute" {
+				return checkC06Cancel(x, c)
+			}
 			viol, r, _ := modelCheck("C06", x, c)
 			nt := false
 			for _, cs := range r.Conns {
@@ -417,9 +736,12 @@ func init() {
 	// ------------------------------------------------------------------ C18
 	register(&Prop{
 		ID: "C18", Level: "exploration", QuickS: 25, ThoroughS: 420,
-		Rule:       "seeded sessions in which every callback retains what it is given (validator: database/user/password strings and the client-parameter map it finds in its context; parser: query string and that map; statement functions: Parameter.Value() slices and the client-parameter strings) together with a private deep copy taken at receipt; the rest of the session stresses read-buffer reuse: messages of body size 1, 4090..4100, 8191/8192, L-5, L-1, L, oversized messages skipped in several chunks, stray CopyData of those sizes, COPY streams, long runs of small messages; after every later callback and at connection end each retained value must equal its copy; a pass-through auth strategy watches cap(Reader.Msg) so that the probes reset_reused_tail / reset_reallocated show the mechanism was reached; non-trivial = at least one value was retained and at least two later messages were processed; distinct = distinct case content hashes",
+		Rule:       "seeded sessions in which every callback retains what it is given (validator: database/user/password strings and the client-parameter map it finds in its context; parser: query string and that map; statement functions: Parameter.Value() slices and the client-parameter strings) together with a private deep copy taken at receipt; the rest of the session stresses read-buffer reuse: messages of body size 1, 4090..4100, 8191/8192, L-5, L-1, L, oversized messages skipped in several chunks, stray CopyData of those sizes, COPY streams, long runs of small messages; after every later callback and at connection end each retained value must equal its copy; a pass-through auth strategy watches cap(Reader.Msg) so that the probes reset_reused_tail / reset_reallocated show the mechanism was reached; E2 variant: Server.Close runs while the connection is open and the client keeps sending messages of sizes around the granule, which are only drained; non-trivial = at least one value was retained and at least two later messages were processed; distinct = distinct case content hashes",
 		Components: e1Components, Assumptions: commonAssumptions,
 		Gen: func(r *Rand, tier string) *Case {
+			if r.Chance(1, 30) {
+				return genC18Close(r)
+			}
 			c := &Case{Server: ServerCfg{Limit: r.PickInt(4096, 5000, 8192, 16384, 65536)}}
 			c.Server.Auth = r.Pick("cleartext", "passthrough", "passthrough")
 			genHistory(r, c, histOpts{closes: r.Chance(1, 3), errs: r.Chance(1, 3), simple: true, extended: true, copy: r.Chance(1, 3), params: true, retain: true, sizes: true, bigValues: true, between: true, stray: true, maxUnits: units(tier, 9)})
@@ -437,6 +759,9 @@ func init() {
 			return c
 		},
 		Check: func(x *Exec, c *Case) ([]Violation, bool) {
+			if c.Variant == "server-closed-then-drained" {
+				return checkC18Close(x, c)
+			}
 			viol, r, _ := modelCheck("C18", x, c)
 			nt := false
 			for _, cs := range r.Conns {
